@@ -7,6 +7,7 @@
    (C18_reachable_invariant) and (b) evaluated by the correspondence checker on every store content the driver
    reads from a real application.  `consts_ok k`: the two fixed precompile addresses differ. *)
 From Evm Require Import Genesis GenesisProofs.
+From Coq Require Import Lia.
 Open Scope Z_scope.
 
 (* ------------------------------------------------------------------ export . import . export = export *)
@@ -60,6 +61,42 @@ Theorem C18_import_of_export_panics : forall k v s g,
 Proof. exact import_export_panic. Qed.
 Print Assumptions C18_import_of_export_panics.
 
+(* ------------------------------------------------------------------ the account environment of the custom modules
+   x/auth and x/bank restore every exported account BEFORE the custom modules initialise.  The only precondition the
+   import of an EXPORT has on that environment is the one of C18_import_of_export_succeeds (a BaseAccount at every
+   exported contract / storage owner).  In particular NO condition on the addresses the precompiles are re-deployed
+   to: whoever sent coins to the bech32 / staking precompile address (which creates an account there), whatever a
+   genesis file lists there, the import is the same. *)
+Theorem C18_import_of_export_environment : forall k v v' s,
+  (forall c, v_hash v c = v_hash v' c) ->
+  (forall g, In g (export_evm (s_evm s)) -> v_acct v (ga_addr g) = v_acct v' (ga_addr g)) ->
+  import k v (export k s) = import k v' (export k s).
+Proof. exact import_export_env. Qed.
+Print Assumptions C18_import_of_export_environment.
+
+Theorem C18_import_of_export_ignores_other_accounts : forall k v s a kd,
+  (forall g, In g (export_evm (s_evm s)) -> ga_addr g <> a) ->
+  import k (with_acct v a kd) (export k s) = import k v (export k s).
+Proof. exact import_export_with_acct. Qed.
+Print Assumptions C18_import_of_export_ignores_other_accounts.
+
+(* any genesis document: x/cpc InitGenesis consults the environment only when DeployErc20Native is set, and then
+   only the next dynamic address, the bond supply and the kind of the account at the cpc module address *)
+Theorem C18_import_cpc_environment : forall k v v' g,
+  (g_erc20_native g = true ->
+   v_next_dyn v = v_next_dyn v' /\ v_bond_supply_pos v = v_bond_supply_pos v' /\
+   v_acct v (k_module_addr k) = v_acct v' (k_module_addr k)) ->
+  import_cpc k v g = import_cpc k v' g.
+Proof. exact import_cpc_env. Qed.
+Print Assumptions C18_import_cpc_environment.
+
+(* the one environment precondition of x/cpc InitGenesis: with DeployErc20Native, the account at the cpc module address
+   (if any) must be a module account - AccountKeeper.GetModuleAccount panics otherwise *)
+Theorem C18_import_native_needs_module_account : forall k v g,
+  g_erc20_native g = true -> macc_ok k v = false -> import k v g = Panic.
+Proof. exact import_native_needs_module_account. Qed.
+Print Assumptions C18_import_native_needs_module_account.
+
 (* ------------------------------------------------------------------ per module *)
 (* evm: params, the code-hash store, the whole storage store (zero-valued slots and slots of code-less accounts
    included) are identical; the code of every account reads the same *)
@@ -112,8 +149,9 @@ Print Assumptions C18_feemarket_endblock_roundtrip.
 Definition C18_roundtrip_cpc_full : Prop := forall k v s s',
   wfb v s = true -> consts_ok k -> import k v (export k s) = Ok s' -> s_cpc s' = s_cpc s.
 
-Definition k0 : cpc_consts := CC 100 200 (Meta 1 11) (Meta 2 22) (Meta 3 33) 7.
-Definition v0 : env := Env (fun c => if c =? CODE_EMPTY then EMPTYH else c + 1000) (fun _ => true) 300 true.
+Definition k0 : cpc_consts := CC 100 200 (Meta 1 11) (Meta 2 22) (Meta 3 33) 7 400.
+(* a BaseAccount at EVERY address (the precompile addresses 100, 200, 300 included), the module account at 400 *)
+Definition v0 : env := Env (fun c => if c =? CODE_EMPTY then EMPTYH else c + 1000) (fun a => if a =? 400 then AModule else ABase) 300 true.
 Example k0_ok : consts_ok k0. Proof. cbv. discriminate. Qed.
 
 (* an allowance *)
@@ -254,3 +292,30 @@ Example C18_witness_staking_metadata_reset :
   import k0 v0 (export k0 (St (Evm 0 [] [] []) (Fm 7 0) (Cpc 0 [(100, Meta 2 77); (200, Meta 3 33)] [] []) []))
   = Ok (St (Evm 0 [] [] []) (Fm 7 0) (Cpc 0 [(100, Meta 2 22); (200, Meta 3 33)] [] []) []).
 Proof. vm_compute. reflexivity. Qed.
+
+(* the account environment: an account of every kind (or none) at the bech32 address 200, the staking address 100 and the
+   next dynamic address 300 - the import of the export is the same state *)
+Example C18_example_accounts_at_precompile_addresses :
+  forall kd1 kd2 kd3,
+  import k0 (with_acct (with_acct (with_acct v0 200 kd1) 100 kd2) 300 kd3) (export k0 ex_state) = import k0 v0 (export k0 ex_state) /\
+  exists s', import k0 v0 (export k0 ex_state) = Ok s'.
+Proof.
+  intros kd1 kd2 kd3. split; [|eexists; vm_compute; reflexivity].
+  assert (D : forall a, a = 100 \/ a = 200 \/ a = 300 -> forall g, In g (export_evm (s_evm ex_state)) -> ga_addr g <> a).
+  { intros a Ha g Hg. vm_compute in Hg. destruct Hg as [Hg|[Hg|[]]]; subst g; cbn [ga_addr]; lia. }
+  assert (E : forall v, (forall c, v_hash v c = v_hash v0 c) ->
+              (forall g, In g (export_evm (s_evm ex_state)) -> v_acct v (ga_addr g) = v_acct v0 (ga_addr g)) ->
+              import k0 v (export k0 ex_state) = import k0 v0 (export k0 ex_state)).
+  { intros v Hh Ha. apply import_export_env; assumption. }
+  apply E; [reflexivity|]. intros g Hg. unfold with_acct. cbn [v_acct].
+  pose proof (D 100 (or_introl eq_refl) g Hg). pose proof (D 200 (or_intror (or_introl eq_refl)) g Hg).
+  pose proof (D 300 (or_intror (or_intror eq_refl)) g Hg).
+  destruct (ga_addr g =? 300) eqn:E3; [lia|]. destruct (ga_addr g =? 100) eqn:E1; [lia|].
+  destruct (ga_addr g =? 200) eqn:E2; [lia|]. reflexivity.
+Qed.
+(* a genesis with DeployErc20Native and a BaseAccount (someone's coins) at the cpc module address is refused; a vesting
+   account at an exported contract address is refused *)
+Example C18_example_environment_preconditions :
+  import k0 (with_acct v0 400 ABase) ex_genesis = Panic /\ import k0 (with_acct v0 400 ANone) ex_genesis <> Panic /\
+  import k0 (with_acct v0 10 AVesting) (export k0 ex_state) = Panic.
+Proof. split; [vm_compute; reflexivity|]. split; [vm_compute; discriminate|vm_compute; reflexivity]. Qed.
